@@ -18,17 +18,43 @@ def conds_NewServer : List String := [
   ]
 
 def stmts_NewServer : List String := [
+   "{",
+   "if mux == nil {",
+   "return nil, fmt.Errorf(\"invalid mux must not be nil\")",
+   "}",
    "var svrOpts serverOptions",
-   "err := opt(&svrOpts)",
+   "for _, opt := range opts {",
+   "if err := opt(&svrOpts); err != nil {",
+   "return nil, err",
+   "}",
+   "}",
    "h := svrOpts.serveMux",
+   "if h == nil {",
    "h = http.NewServeMux()",
+   "}",
+   "if len(svrOpts.muxPatterns) == 0 {",
    "svrOpts.muxPatterns = []string{\"/\"}",
+   "}",
+   "for _, pattern := range svrOpts.muxPatterns {",
    "prefix := strings.TrimSuffix(pattern, \"/\")",
+   "if len(prefix) > 0 {",
    "h.Handle(prefix+\"/\", http.StripPrefix(prefix, mux))",
+   "} else {",
    "h.Handle(\"/\", mux)",
+   "}",
+   "}",
    "h2s := &http2.Server{}",
-   "hs := &http.Server{ ReadHeaderTimeout: 10 * time.Second, MaxHeaderBytes: 1 << 20, Handler: h2c.NewHandler(h, h2s), TLSConfig: svrOpts.tlsConfig, }",
-   "err := http2.ConfigureServer(hs, h2s)"
+   "hs := &http.Server{",
+   "ReadHeaderTimeout: 10 * time.Second,",
+   "MaxHeaderBytes: 1 << 20,",
+   "Handler: h2c.NewHandler(h, h2s),",
+   "TLSConfig: svrOpts.tlsConfig,",
+   "}",
+   "if err := http2.ConfigureServer(hs, h2s); err != nil {",
+   "return nil, err",
+   "}",
+   "return hs, nil",
+   "}"
   ]
 
 def conds_HTTPHandlerOption : List String := [
@@ -39,9 +65,15 @@ def conds_HTTPHandlerOption : List String := [
   ]
 
 def stmts_HTTPHandlerOption : List String := [
-   "func-literal",
+   "{",
+   "return func(opts *serverOptions) error {",
+   "if opts.serveMux == nil {",
    "opts.serveMux = http.NewServeMux()",
-   "opts.serveMux.Handle(pattern, handler)"
+   "}",
+   "opts.serveMux.Handle(pattern, handler)",
+   "return nil",
+   "}",
+   "}"
   ]
 
 def conds_MuxHandleOption : List String := [
@@ -53,8 +85,15 @@ def conds_MuxHandleOption : List String := [
   ]
 
 def stmts_MuxHandleOption : List String := [
-   "func-literal",
-   "opts.muxPatterns = patterns"
+   "{",
+   "return func(opts *serverOptions) error {",
+   "if opts.muxPatterns != nil {",
+   "return fmt.Errorf(\"duplicate mux patterns registered\")",
+   "}",
+   "opts.muxPatterns = patterns",
+   "return nil",
+   "}",
+   "}"
   ]
 
 def conds_Mux_ServeHTTP : List String := [
@@ -68,12 +107,27 @@ def conds_Mux_ServeHTTP : List String := [
   ]
 
 def stmts_Mux_ServeHTTP : List String := [
+   "{",
+   "if r.ProtoMajor == 2 && strings.HasPrefix(",
+   "r.Header.Get(\"Content-Type\"), \"application/grpc\",",
+   ") {",
    "m.serveGRPC(w, r)",
+   "return",
+   "}",
+   "if strings.HasPrefix(",
+   "r.Header.Get(\"Content-Type\"), \"application/grpc-web\",",
+   ") {",
    "m.serveGRPCWeb(w, r)",
+   "return",
+   "}",
+   "if !strings.HasPrefix(r.URL.Path, \"/\") {",
    "r.URL.Path = \"/\" + r.URL.Path",
+   "}",
    "r.URL.Path = strings.TrimSuffix(r.URL.Path, \"/\")",
-   "err := m.serveHTTP(w, r)",
-   "m.encError(w, r, err)"
+   "if err := m.serveHTTP(w, r); err != nil {",
+   "m.encError(w, r, err)",
+   "}",
+   "}"
   ]
 
 def conds_TLSCredsOption : List String := [
@@ -83,8 +137,12 @@ def conds_TLSCredsOption : List String := [
   ]
 
 def stmts_TLSCredsOption : List String := [
-   "func-literal",
-   "opts.tlsConfig = c"
+   "{",
+   "return func(opts *serverOptions) error {",
+   "opts.tlsConfig = c",
+   "return nil",
+   "}",
+   "}"
   ]
 
 end Larking.Expected.C20
